@@ -1,0 +1,24 @@
+//go:build verif
+
+package server
+
+import (
+	"net"
+	"net/http"
+
+	"github.com/gorilla/websocket"
+)
+
+// This file is compiled only with `-tags verif`. It gives the verification harness in /verif
+// access to the unexported WebSocket adapter; it adds nothing to the normal build.
+
+// VerifNewWsConn builds the adapter exactly as wsHandler does for an upgraded connection.
+func VerifNewWsConn(c *websocket.Conn) net.Conn {
+	return &wsConn{Conn: c.UnderlyingConn(), c: c}
+}
+
+// VerifWsUpgrader returns the upgrader wsHandler uses.
+func VerifWsUpgrader() *websocket.Upgrader { return defaultUpgrader }
+
+// VerifWsHandler returns the HTTP handler that WsServer listeners are given (upgrade + serve one client).
+func VerifWsHandler(s Server) http.HandlerFunc { return s.(*server).wsHandler() }
